@@ -164,6 +164,28 @@ Theorem c12_rawjson_exhausted : forall j, all_ws j -> RawJson.recv_all j = [IErr
 Proof. exact rawjson_exhausted. Qed.
 Print Assumptions c12_rawjson_exhausted.
 
+(* soundness of the framing layer: a record returned by Recv is a contiguous span of the stream -
+   white space, then the bytes of exactly one JSON value as the scanner delimits it (null is
+   returned as the empty record) - and [rest] is everything after it *)
+Theorem c12_rawjson_sound : forall st s r st' rest,
+  RawJson.recv st s = Ok r st' rest ->
+  st = None /\ st' = None /\
+  exists j raw, s = j ++ raw ++ rest /\ all_ws j /\
+                (exists c t, raw = c :: t /\ is_ws c = false) /\
+                scan (raw ++ rest) = Done rest /\
+                r = (if is_null raw then [] else raw).
+Proof. exact rawjson_sound. Qed.
+Print Assumptions c12_rawjson_sound.
+
+(* truncation: complete records followed by a proper, non-empty prefix of a JSON object, array or
+   string: the complete records, then an error and no (shortened) record *)
+Theorem c12_rawjson_truncation : forall rs r pre suf,
+  Forall (fun r => r = [] \/ json_record r = true) rs -> json_record r = true ->
+  r = pre ++ suf -> pre <> [] -> suf <> [] ->
+  exists e, RawJson.recv_all (concat (map RawJsonProofs.enc rs) ++ pre) = map IRec rs ++ [IErr e].
+Proof. exact rawjson_truncation. Qed.
+Print Assumptions c12_rawjson_truncation.
+
 (* ---- the server and a final record delivered together with io.EOF ---- *)
 
 (* SrvModel handles [FMsgEOF i] (record returned WITH io.EOF) exactly like [FMsg i] wherever it
